@@ -61,12 +61,10 @@ Proof.
   destruct (dmem Nat.eqb (st_doms s) n); cbn; split; auto; discriminate.
 Qed.
 
+(** a failing add_domain raises ValueError and leaves every table unchanged *)
 Theorem add_domain_fails s n d : dmem Nat.eqb (st_doms s) n = true ->
-  snd (add_domain s n d) = RErr ValueErr /\ st_doms (fst (add_domain s n d)) = st_doms s /\
-  st_facs (fst (add_domain s n d)) = st_facs s.
-Proof.
-  unfold add_domain. cbn [add_node_label st_doms mk_state fst snd]. intros ->. cbn. auto.
-Qed.
+  add_domain s n d = (s, RErr ValueErr).
+Proof. unfold add_domain. intros ->. reflexivity. Qed.
 
 Theorem add_domain_post s n d : dmem Nat.eqb (st_doms s) n = false ->
   let s' := fst (add_domain s n d) in
@@ -84,7 +82,7 @@ Qed.
 
 Theorem new_finite_domain_iff s n k items :
   (snd (new_finite_domain s n k items) = RDom (mk_finite k items) <-> dmem Nat.eqb (st_doms s) n = false) /\
-  (dmem Nat.eqb (st_doms s) n = true -> snd (new_finite_domain s n k items) = RErr ValueErr).
+  (dmem Nat.eqb (st_doms s) n = true -> new_finite_domain s n k items = (s, RErr ValueErr)).
 Proof.
   unfold new_finite_domain, add_domain. cbn [add_node_label st_doms mk_state fst snd].
   destruct (dmem Nat.eqb (st_doms s) n); cbn; split; try split; auto; discriminate.
@@ -133,29 +131,30 @@ Proof.
     apply elabel_eqb_eq. auto.
 Qed.
 
-(** what add_factor does, in two equations *)
+(** what add_factor does, in equations *)
 Ltac af_unfold :=
-  unfold add_factor, bind_spec, bind_spec_guarded, label_consistent, add_edge_label, label_bound, fac_arity.
+  unfold add_factor, label_clash, bind_spec, bind_spec_guarded, label_consistent, add_edge_label, label_bound, fac_arity.
 Ltac af_leaf := repeat split; auto; try discriminate.
 
 Lemma add_factor_run s e f :
   snd (add_factor s e f) = (if bind_spec s e f then RNone else RErr ValueErr) /\
+  (bind_spec s e f = false -> fst (add_factor s e f) = s) /\
   st_doms (fst (add_factor s e f)) = st_doms s /\
   st_facs (fst (add_factor s e f)) =
     (if bind_spec s e f then dset Nat.eqb (st_facs s) (el_name e) f else st_facs s) /\
-  (bind_spec s e f = true -> el_find (st_els (fst (add_factor s e f))) (el_name e) = Some e).
+  st_nls (fst (add_factor s e f)) = st_nls s /\
+  (bind_spec s e f = true -> st_els (fst (add_factor s e f)) = el_set (st_els s) e).
 Proof.
   af_unfold. rewrite doms_match_check.
   destruct (el_terminal e); cbn [negb andb]; [|af_leaf].
   destruct (el_find (st_els s) (el_name e)) as [e'|];
     [destruct (elabel_eqb e' e); cbn [negb andb]; [|af_leaf]|];
-    cbn [st_doms st_facs st_els st_nls mk_state fst snd];
     (destruct (dmem Nat.eqb (st_facs s) (el_name e)); cbn [negb];
      rewrite ?andb_false_r, ?andb_true_r; [af_leaf|]);
     (destruct (Nat.eqb (length (fac_doms f)) (length (el_type e))); cbn [negb andb]; [|af_leaf]);
     (destruct (check_doms (st_doms s) (el_type e) (fac_doms f));
      cbn [negb fst snd st_doms st_facs st_els st_nls mk_state]; [|af_leaf]);
-    af_leaf; intros _; rewrite el_find_set, Nat.eqb_refl; reflexivity.
+    af_leaf.
 Qed.
 
 Lemma add_factor_outcome s e f :
@@ -193,34 +192,43 @@ Qed.
 Theorem add_factor_spec s e f : snd (add_factor s e f) = RNone <-> bind_spec s e f = true.
 Proof. rewrite add_factor_outcome. destruct (bind_spec s e f); split; auto; discriminate. Qed.
 
+(** a failing add_factor raises ValueError and leaves every table unchanged (since /repo 6c89611
+    the label is registered only when the call succeeds) *)
 Theorem add_factor_fails s e f : snd (add_factor s e f) <> RNone ->
-  snd (add_factor s e f) = RErr ValueErr /\
-  st_facs (fst (add_factor s e f)) = st_facs s /\ st_doms (fst (add_factor s e f)) = st_doms s.
+  add_factor s e f = (s, RErr ValueErr).
 Proof.
-  destruct (add_factor_run s e f) as [Ho [Hd [Hf _]]]. rewrite Ho, Hf, Hd.
-  destruct (bind_spec s e f); [congruence|auto].
+  destruct (add_factor_run s e f) as [Ho [Hs _]]. rewrite Ho.
+  destruct (bind_spec s e f); [congruence|]. intros _.
+  destruct (add_factor s e f) as [s1 r]. cbn [fst snd] in *. rewrite Ho, (Hs eq_refl). reflexivity.
 Qed.
 
+(** a successful add_factor registers the label, stores the factor, and changes nothing else *)
 Theorem add_factor_post s e f : snd (add_factor s e f) = RNone ->
   let s' := fst (add_factor s e f) in
   dget Nat.eqb (st_facs s') (el_name e) = Some f /\
   (forall m, m <> el_name e -> dget Nat.eqb (st_facs s') m = dget Nat.eqb (st_facs s) m) /\
-  st_doms s' = st_doms s /\ el_find (st_els s') (el_name e) = Some e.
+  st_doms s' = st_doms s /\ st_nls s' = st_nls s /\
+  el_find (st_els s') (el_name e) = Some e /\
+  (forall m, m <> el_name e -> el_find (st_els s') m = el_find (st_els s) m).
 Proof.
-  destruct (add_factor_run s e f) as [Ho [Hd [Hf He]]]. rewrite Ho.
-  destruct (bind_spec s e f); [|discriminate]. intros _. cbv zeta. rewrite Hf, Hd.
-  split; [|split; [|split; auto]].
+  destruct (add_factor_run s e f) as [Ho [_ [Hd [Hf [Hn He]]]]]. rewrite Ho.
+  destruct (bind_spec s e f); [|discriminate]. intros _. cbv zeta. rewrite Hf, Hd, Hn, (He eq_refl).
+  split; [|split; [|split; [|split; [|split]]]]; auto.
   - rewrite (dget_dset Nat.eqb Nat.eqb_eq), Nat.eqb_refl. reflexivity.
   - intros m Hne. rewrite (dget_dset Nat.eqb Nat.eqb_eq).
     destruct (Nat.eqb (el_name e) m) eqn:E; auto. apply Nat.eqb_eq in E. congruence.
+  - rewrite el_find_set, Nat.eqb_refl. reflexivity.
+  - intros m Hne. rewrite el_find_set.
+    destruct (Nat.eqb (el_name e) m) eqn:E; auto. apply Nat.eqb_eq in E. congruence.
 Qed.
 
-(** a bound label is refused and keeps its factor *)
+(** a bound label is refused and nothing changes *)
 Theorem add_factor_bound s e f : dmem Nat.eqb (st_facs s) (el_name e) = true ->
-  snd (add_factor s e f) = RErr ValueErr /\ st_facs (fst (add_factor s e f)) = st_facs s.
+  add_factor s e f = (s, RErr ValueErr).
 Proof.
-  intros Hb. assert (E : bind_spec s e f = false) by (unfold bind_spec; rewrite Hb; apply andb_false_r).
-  destruct (add_factor_run s e f) as [Ho [_ [Hf _]]]. rewrite Ho, Hf, E. auto.
+  intros Hb. apply add_factor_fails. rewrite add_factor_outcome.
+  assert (E : bind_spec s e f = false) by (unfold bind_spec; rewrite Hb; apply andb_false_r).
+  rewrite E. discriminate.
 Qed.
 
 Example binding_example :
@@ -353,3 +361,19 @@ Theorem binding_refuted_old :
   dget Nat.eqb (st_facs (fst (add_factor_old f14_state (0, [], true) (FConst [] 2)))) 0 = Some (FConst [] 2) /\
   snd (add_factor f14_state (0, [], true) (FConst [] 2)) = RErr ValueErr.
 Proof. repeat split; reflexivity. Qed.
+
+(** new_finite_factor, too, changes nothing unless it returns the new factor *)
+Theorem new_finite_factor_fails s n w :
+  (forall f, snd (new_finite_factor s n w) <> RFac f) -> fst (new_finite_factor s n w) = s.
+Proof.
+  unfold new_finite_factor.
+  destruct (el_find (st_els s) n) as [e|]; [|reflexivity].
+  destruct (mapM (fun nl => match dget Nat.eqb (st_doms s) nl with Some d => Ok d | None => Err KeyErr end) (el_type e))
+    as [doms|x]; [|reflexivity].
+  destruct (mk_finite_factor doms w) as [f|x]; [|reflexivity].
+  intros H. destruct (add_factor s e f) as [s1 r] eqn:E.
+  destruct r;
+    try (assert (Hn : snd (add_factor s e f) <> RNone) by (rewrite E; discriminate);
+         rewrite (add_factor_fails s e f Hn) in E; injection E as <- _; reflexivity).
+  exfalso. apply (H f). reflexivity.
+Qed.
